@@ -107,22 +107,31 @@ inductive LinkRes where
   | indexError              -- `list(...)[0]` on an empty list (unreachable under `len == 1`)
   deriving DecidableEq, Repr
 
-/-- templatewriter.writer.TemplateWriter.writeSummaryPages, tail:
+/-- templatewriter.writer.TemplateWriter.writeSummaryPages, tail (at /repo 5201211):
 ```
 if len(system.root_names) == 1:
     root_module_path = build_directory / (list(system.root_names)[0] + '.html')
+    if root_module_path.name == 'index.html': return
+    if root_module_path.name in [pclass.filename for pclass in chain(summaryPages(system), searchpages)]: return
     try: root_module_path.unlink()  except FileNotFoundError: pass
     root_module_path.symlink_to('index.html')
-``` -/
-def rootSymlink (enum : List Name) : LinkRes :=
+```
+`pageFiles` = the file names of the summary and search pages of this run (a list: membership only). -/
+def rootSymlink (enum : List Name) (pageFiles : List Name) : LinkRes :=
   if enum.length = 1 then
     match enum[0]? with
-    | some r => .link (r ++ dotHtml)
+    | some r =>
+      if r ++ dotHtml = indexHtml then .noLink
+      else if pageFiles.contains (r ++ dotHtml) then .noLink
+      else .link (r ++ dotHtml)
     | none => .indexError
   else .noLink
 
-/-- templatewriter.summary.summaryPages: `if len(system.root_names) > 1: pages.append(IndexPage)` -/
-def hasIndexPage (enum : List Name) : Bool := decide (enum.length > 1)
+/-- templatewriter.summary.summaryPages (at /repo a09aa28):
+`if len(system.root_names) > 1 or not any(o.isVisible for o in system.rootobjects): pages.append(IndexPage)`;
+`anyRootVisible` = `any(o.isVisible for o in system.rootobjects)` (a fold over the LIST of root objects). -/
+def hasIndexPage (enum : List Name) (anyRootVisible : Bool) : Bool :=
+  decide (enum.length > 1) || !anyRootVisible
 
 /-- linker._EpydocLinker._resolve_identifier_xref: `fullID[:root_idx] not in system.root_names` -/
 def rootUnknown (enum : List Name) (pfx : Name) : Bool := !(membershipSite pfx enum)
